@@ -11,6 +11,7 @@ EXTENDS Relations, TLC, Json
 CONSTANTS GF, GA, GB,          \* fine level; levels of region A and region B
           XsA, YsA, XsB, YsB,      \* candidate corner coordinates of the first (outer) loop, in cells of the own level
           HXsA, HYsA, HXsB, HYsB,  \* candidate corner coordinates of the further loops (holes, islands, second shells)
+          GlueXs,                  \* extents (cells of A's level) of two-face loops on either side of the common face side; {} = none
           ThinMod, ThinRem,        \* keep the pairs whose hash is ThinRem modulo ThinMod (seeded sub-sampling)
           KindsA, KindsB,      \* subsets of 0..4 (0 rectangle, 1..4 L-shapes)
           PitchA, PitchB,      \* vertex spacings in cells of the own level (0 = corners only)
@@ -43,11 +44,24 @@ SA == CandsOK(Cands(GA, XsA, YsA, KindsA, PitchA))
 SB == CandsOK(Cands(GB, XsB, YsB, KindsB, PitchB))
 HA == CandsOK(Cands(GA, HXsA, HYsA, {0}, PitchA))
 HB == CandsOK(Cands(GB, HXsB, HYsB, {0}, PitchB))
-PolysA == PolysOf(SA, HA, MaxLoopsA)
+\* two-face loops (see Relations!GlueVerts), written for a common side x = N / x = 0 and
+\* transposed by OnFace when the first face is odd: <<half on the second face, half on the first>>
+GluePolys ==
+    LET n == 2 ^ GA
+    IN  {<<[FineLoop(0, GA, GF, 0, y0, m, y1, 0, 0, 0, FALSE, pt) EXCEPT !.glue = 1],
+           [FineLoop(0, GA, GF, n - w, y0, n, y1, 0, 0, 0, FALSE, pt) EXCEPT !.glue = 2]>> :
+            m \in {x \in GlueXs : 0 < x /\ x <= n}, w \in {x \in GlueXs : 0 < x /\ x <= n},
+            y0 \in YsA, y1 \in {y \in YsA : y > y0}, pt \in PitchA}
+IsGlue(P) == P[1].glue = 1
+PolysA == PolysOf(SA, HA, MaxLoopsA) \cup {P \in GluePolys : \A k \in 1..2 : WellFormed(P[k], GF) /\ P[1].Y0 < P[1].Y1}
 PolysB == PolysOf(SB, HB, MaxLoopsB)
 PHash(P) == SumFn([k \in 1..Len(P) |-> (LKey(P[k]) + P[k].m + 7 * P[k].nc) % 10007])
 
-OnFace(P, f) == [k \in 1..Len(P) |-> [P[k] EXCEPT !.f = f]]
+\* a two-face loop "on face f" has its second half on f and its first half on f-1
+OnFace(P, f) == IF IsGlue(P)
+                THEN IF (f - 1) % 2 = 0 THEN <<[P[1] EXCEPT !.f = f], [P[2] EXCEPT !.f = f - 1]>>
+                     ELSE <<[Transpose(P[1]) EXCEPT !.f = f], [Transpose(P[2]) EXCEPT !.f = f - 1]>>
+                ELSE [k \in 1..Len(P) |-> [P[k] EXCEPT !.f = f]]
 
 \* ------------------------------------------------------------------ pairs ------
 \* a full state is <<P, Q, vertex sequences of P, of Q, the probe universe U,
@@ -62,7 +76,9 @@ MkPair(P, Q, fp) ==
         vx(l) == LET v == Verts(l, vs) IN RotateTo(v, ((LKey(l) + fp) % Len(v)) + 1)
     IN  <<p0, q0, [k \in 1..Len(p0) |-> vx(p0[k])], [k \in 1..Len(q0) |-> vx(q0[k])], u,
           <<RegionOn(u, p0), RegionOn(u, PolyComplement(p0, u)), RegionOn(u, q0), RegionOn(u, PolyComplement(q0, u))>>,
-          <<TopIdx(p0, u), TopIdx(q0, u)>> >>
+          <<TopIdx(p0, u), TopIdx(q0, u)>>,
+          \* the single boundary loop of a two-face region
+          IF IsGlue(p0) /\ p0[2].f \in Faces THEN GlueVerts(p0[1], Verts(p0[1], vs), p0[2], Verts(p0[2], vs), Side(GF)) ELSE <<>> >>
 \* initial states <<P, chunk>>: the work is split into 4 chunks of Q per P (parallelism)
 InitPair == t \in {<<P, ch>> : P \in PolysA, ch \in 0..3}
 NextPair == /\ Len(t) = 2
@@ -70,7 +86,7 @@ NextPair == /\ Len(t) = 2
                         pr \in {x \in PolysB \X FacePairs : /\ (PHash(t[1]) + PHash(x[1]) + x[2]) % ThinMod = ThinRem
                                                               /\ (PHash(x[1]) \div 7) % 4 = t[2]}}
 
-FullPair == Len(t) = 7
+FullPair == Len(t) = 8
 P0 == t[1]
 Q0 == t[2]
 Scene == P0 \o Q0
@@ -88,6 +104,9 @@ ValidPair ==
     \* corners on the common edge of two faces are not bit-identical: keep one region off the edge
     /\ (P0[1].f # Q0[1].f => (\A k \in 1..Len(P0) : ~TouchesFaceEdge(P0[k], GF))
                              \/ (\A k \in 1..Len(Q0) : ~TouchesFaceEdge(Q0[k], GF)))
+    \* a two-face loop needs a preceding face; the other region stays off every face side
+    /\ (IsGlue(P0) => /\ P0[2].f \in Faces /\ Len(t[8]) <= 250
+                      /\ \A k \in 1..Len(Q0) : ~TouchesFaceEdge(Q0[k], GF))
 
 \* model theorems, checked on every generated pair
 PairTheorems ==
@@ -98,6 +117,16 @@ PairTheorems ==
               Scene[i].f = Scene[j].f /\ i # j =>
                   (Range(SceneVerts[i]) \cap BoundaryPts(Scene[j])) \subseteq Range(SceneVerts[j])
         /\ \A k \in 1..Len(Scene) : WellFormed(Scene[k], GF)
+        \* the boundary of a two-face region: every vertex of the two halves except those strictly
+        \* inside the common side, each once
+        /\ (IsGlue(P0) =>
+              LET g == t[8]
+                  inner(l, p) == IF P0[2].f % 2 = 0 THEN (p[1] = 0 \/ p[1] = Side(GF)) /\ l.Y0 < p[2] /\ p[2] < l.Y1
+                                 ELSE (p[2] = 0 \/ p[2] = Side(GF)) /\ l.X0 < p[1] /\ p[1] < l.X1
+                  half(k) == {<<P0[k].f, p[1], p[2]>> : p \in {q \in Range(SceneVerts[k]) : ~inner(P0[k], q)}}
+                  onSide(p) == IF P0[2].f % 2 = 0 THEN p[2] = Side(GF) ELSE p[3] = Side(GF)
+              IN  /\ Cardinality(Range(g)) = Len(g)
+                  /\ Range(g) = half(1) \cup {p \in half(2) : ~onSide(p)})
 
 \* only for small GF: the probe universe decides the relations exactly, and the corner
 \* sequences bound exactly the cell sets
@@ -121,7 +150,8 @@ EmitPair ==
     IF FullPair /\ ValidPair
     THEN PrintT(<<"CASE", ToJson(
                [op |-> "c07pair", fa |-> P0[1].f, fb |-> Q0[1].f, gf |-> GF, ga |-> GA, gb |-> GB,
-                a |-> [loops |-> t[3], top |-> t[7][1] - 1],
+                a |-> [loops |-> IF IsGlue(P0) THEN <<t[8]>> ELSE t[3], top |-> t[7][1] - 1],
+                twoface |-> IsGlue(P0),
                 b |-> [loops |-> t[4], top |-> t[7][2] - 1],
                 touch |-> PolysTouch(P0, Q0),
                 want |-> [c |-> [s \in 1..2 |-> [u \in 1..2 |-> Subset(RY[u], RX[s])]],
